@@ -12,10 +12,18 @@ PROPS_PART = {
                    'duration_since), Mutex (guard = &mut, lock never poisoned), RandomState::hash_one (uninterpreted h), Writer::clear_rrs/'
                    'set_tc/extended_rcode, Reader::opcode, rand. The random choice for slip>=2 is external (only Slip-or-Drop is proved). '
                    'Precondition: a NOERROR QUERY response being sent has a question (server invariant, not proved here).',
-        verus=[dict(unit='rrl', which='all')],
+        verus=[dict(unit='rrl', which='all', labels=['C26.'], unlabelled=True)],
         kani=[dict(harness='full_rrl_params_new_accepts_iff_limits_fit', module='rrl', kind='complete', bound=None, tier='quick',
                    what='RrlParams::new (real crate) accepts iff all args non-zero and every rate*window fits u32, exact error otherwise; all u32^4')],
         cex={'rrl.process_response': [('rrl', 'cex_refill_mul_overflow'), ('rrl', 'cex_refill_wrapping_value')]},
+        native=[dict(bin='bnd_rrl_streams', when='quick',
+                     bound='16 request kinds (incl. header without question, BADVERS, opcode STATUS, TCP) x 2 sources x slip 0/1, three responses each; bursts of rate*window+4 requests for '
+                           '(rate, window) in (1,1) (3,2) (2,5) (7,1) on a NOERROR, NXDOMAIN, REFUSED and FORMERR stream; ONE idle period of 2.1 s with window 1 s (rate 1 and rate 2^32-1); '
+                           'plus the 49152 request pairs of C27',
+                     what='Server::handle_message with RrlParams: slip 0 => a limited response is dropped; slip 1 => it is always sent with TC set and no answer/authority records and nothing but OPT '
+                          'in the additional section, also when the request has no question; TCP / non-QUERY responses never withheld or truncated; a burst gets exactly rate*window responses; '
+                          'after an idle period longer than the window a burst of 5 gets exactly rate*window = 1 response (judged only if the burst provably lies within the third second; '
+                          'otherwise reported as skipped) and rate 2^32-1 neither panics nor withholds; other unexpected outcomes re-tried twice')],
         unverified=['slip >= 2: which limited responses are slipped (rand::thread_rng)',
                     'the precondition "subject && NOERROR && no source of synthesis => question is Some" at the call site src/server/mod.rs:224',
                     'Writer::clear_rrs / set_tc / extended_rcode and Reader::opcode are stand-in contracts here (writer/reader units)'],
@@ -33,10 +41,23 @@ PROPS_PART = {
         level_note='Documented limitation (also in rrl.rs): streams are identified up to collisions of the 32-bit QNAME hash and of the bucket '
                    'index (hash % size); the contract is about Keys. Trusted: Name/Key Hash impls feed the lower-cased wire form / the fields '
                    'to the hasher; RandomState::hash_one is a deterministic function h; std IpAddr conversions are big-endian.',
-        verus=[dict(unit='rrl', which='all')],
+        verus=[dict(unit='rrl', which='all', labels=['C27.'])],
         kani=[dict(harness='full_rrl_prefix_len_and_size_ranges', module='rrl', kind='complete', bound=None, tier='quick',
                    what='set_ipv4_prefix_len/set_ipv6_prefix_len/set_size (real crate) accept exactly len<=32 / len<=64 / size!=0, no shift panic; all u8, usize')],
         cex={},
+        native=[dict(bin='bnd_rrl_streams', when='quick',
+                     bound='ordered pairs of requests on a fresh server each: 16 request kinds (existing QNAME, other letter case, other type = NODATA, with EDNS, second QNAME, two names under one wildcard, '
+                           'one under another, two non-existent names, a name outside the zones, EDNS version 1 = BADVERS for two QNAMEs, header without question = FORMERR, opcode STATUS, TCP) ^2 '
+                           'x 8 sources (IPv4 same /24, other /24, IPv4-mapped, IPv6 same /56, other /56, IPv4-compatible) ^2 x 3 prefix configurations (24+56, 32+64, 8+32): 49152 pairs',
+                     what='Server::handle_message with RrlParams (1 response per stream and window, slip 0): the second response is withheld iff both are UDP QUERYs from the same family and configured prefix '
+                          '(IPv4-mapped = IPv4) with the same category - NOERROR: same QNAME ignoring case or same wildcard source of synthesis; NXDOMAIN; any other RCODE incl. extended ones, '
+                          'taken from the response sent; unexpected outcomes re-tried twice on a fresh server (buckets refill after 1 s; 32-bit QNAME hash collisions)'),
+                dict(bin='bnd_received_info', when='quick',
+                     bound='IPv6 sources with octets 0..10 all zero (x all 2^16 values of octets 10..12) / exactly one of the 80 bits set / all ones (x 4 values of octets 10..12), '
+                           'x 5 low words (1.2.3.4, 0.0.0.1, 127.0.0.1, 255.255.255.254, 0.0.0.0): 329k pairs of requests',
+                     what='ReceivedInfo::new canonicalises exactly ::ffff:a.b.c.d to a.b.c.d, observed through the public API: Server::handle_message with RRL (empty catalog = REFUSED stream, '
+                          '1 response per window, slip 0, /32 and /64 prefixes, 1 bucket): after a UDP query from a.b.c.d a UDP query from the IPv6 source goes unanswered iff it is IPv4-mapped; '
+                          'TCP never limited; unexpected outcomes re-tried twice (bucket refills after 1 s)')],
         unverified=['impl Hash for Name / Label (case-insensitive hashing) is assumed through HashView (C16)',
                     'how the server fills Context.source_of_synthesis / question (lookup code, other units)'],
         assumptions=['hash collisions: equal 32-bit name hashes or equal bucket indexes merge / evict streams (documented behaviour)'],
@@ -49,7 +70,7 @@ PROPS_PART = {
                    'the last refill, send exactly min(n, rate*window - c0) responses and count each sent response once.',
         level_note='Concurrency itself is ASSUMED: std Mutex gives mutual exclusion, so the critical sections of concurrent calls are '
                    'serialised; schedules are not explored. The lemma also assumes no colliding stream takes over the bucket in between.',
-        verus=[dict(unit='rrl', which='all')],
+        verus=[dict(unit='rrl', which='all', labels=['C28'])],
         kani=[],
         cex={},
         unverified=['thread schedules / memory model (Kani has no threads; Verus contract is per call)'],
